@@ -219,6 +219,7 @@ struct Keys {
 // ================================================================ builder (C10)
 static void builder_gen(Rng &r, Plan &p, Tier tier, uint64_t index)
 {
+	p.cfg["reuse"] = Val((int64_t)(r.chance(1, 4) ? 1 : 0)); // allocator address reuse (see SimAlloc::reuse)
 	(void)index;
 	int n = (int)r.range(5, tier == QUICK ? 30 : 45);
 	for (int i = 0; i < n; i++) {
@@ -474,6 +475,7 @@ enum { TK_VALID = 0, TK_NODOTS, TK_BADHDR, TK_BADALG, TK_WRONGALG, TK_EXPIRED, T
 
 static void reuse_gen(Rng &r, Plan &p, Tier tier, uint64_t index)
 {
+	p.cfg["reuse"] = Val((int64_t)(r.chance(1, 4) ? 1 : 0)); // allocator address reuse (see SimAlloc::reuse)
 	(void)index;
 	p.cfg["mode"] = Val((int64_t)r.below(3)); // 0 checker HS256, 1 checker no key, 2 builder
 	p.cfg["iss"] = Val((int64_t)r.below(2));
@@ -779,6 +781,7 @@ extern const Profile PROFILE_REUSE = {"reuse", reuse_gen, reuse_exec};
 // ================================================================ callback (C19)
 static void callback_gen(Rng &r, Plan &p, Tier tier, uint64_t index)
 {
+	p.cfg["reuse"] = Val((int64_t)(r.chance(1, 4) ? 1 : 0)); // allocator address reuse (see SimAlloc::reuse)
 	(void)index;
 	(void)tier;
 	p.cfg["signed"] = Val((int64_t)r.below(2));
